@@ -2,6 +2,7 @@
 evidence files, violation reporting, known findings."""
 import fcntl
 import glob
+import hashlib
 import json
 import os
 import re
@@ -182,8 +183,25 @@ class Ctx:
         Returns True when every obligation checked."""
         prop = "props/%s.v" % self.pid
         with Lock():
+            # generated files are rewritten exactly when their content changes; in addition the content each compiled file of THIS tree
+            # was last built from is remembered (build/genhash.json): a source replaced from outside with an older time stamp
+            # (rsync -a, a restore) next to a compiled file built from other content would otherwise be trusted by make
+            hpath = os.path.join(BUILD, "genhash.json")
+            try:
+                with open(hpath) as f:
+                    seen = json.load(f)
+            except (OSError, ValueError):
+                seen = {}
             for rel, text in (gen_files or {}).items():
-                write_if_changed(os.path.join(COQ, rel), text)
+                path = os.path.join(COQ, rel)
+                h = hashlib.sha1(text.encode()).hexdigest()
+                changed = write_if_changed(path, text)
+                if not changed and seen.get(rel) != h and os.path.exists(path[:-2] + ".vo"):
+                    os.utime(path)
+                seen[rel] = h
+            if gen_files:
+                with open(hpath, "w") as f:
+                    json.dump(seen, f)
             bad = textual_gate()
             if bad:
                 self.broken.append(Broken("gate", "forbidden-construct", "\n".join(bad)))
